@@ -138,6 +138,10 @@ impl Board {
     }
 
     pub fn push_en_passant_target(&mut self, target_square: Bitboard) -> Bitboard {
+        // The previous target is no longer available, so its key leaves the hash.
+        let previous_target_square = self.move_info.peek_en_passant_target();
+        self.position_info
+            .update_zobrist_hash_toggle_en_passant_target(previous_target_square);
         self.position_info
             .update_zobrist_hash_toggle_en_passant_target(target_square);
         self.move_info.push_en_passant_target(target_square)
@@ -151,6 +155,10 @@ impl Board {
         let target_square = self.move_info.pop_en_passant_target();
         self.position_info
             .update_zobrist_hash_toggle_en_passant_target(target_square);
+        // The previous target is available again, so its key re-enters the hash.
+        let previous_target_square = self.move_info.peek_en_passant_target();
+        self.position_info
+            .update_zobrist_hash_toggle_en_passant_target(previous_target_square);
         target_square
     }
 
